@@ -346,3 +346,68 @@ def corpus(vc):
                  ("AES128", "PublicEccKey", "PrivateEccKey", "random_bytes")]
     vc.prove("only-format-errors-and-terminates[%s/%s]" % (entry, strat), not bad, repr(bad))
     vc.prove("registry-unchanged", all(a is b for a, b in zip(reg_before, reg_after)))
+
+
+# ---------------------------------------------------------------------------------------
+# the binary BF3/BEC2 reader on EVERY framing-consistent input (any number of entries, free field values, arbitrary tag
+# ids/values incl. empty values, any payload region): it returns or raises a format error / ValueError - never another
+# exception type.  This is C05's edited-layout proof (contracts/C05.py::_edits) run for this property: its clause
+# reject=>format-error-or-ValueError is the C14 statement; the accept=> clauses come along.
+from contracts import C05 as _C05, C01 as _C01
+
+
+@proof("C14/from_binary.edited-layout[mac-check-off]", functions=_C01.FUNCS, family=None, shards=12)
+def from_binary_raises(vc):
+    _C05._edits(vc, False)
+
+
+# ---------------------------------------------------------------------------------------
+# BF2 importer: every instruction / header keyword x hostile parameter values, in both line forms ('#> NAME k=v' and
+# '##NAME: text'), placed before, inside and after a firmware section.  Bounded (grammar product, stated).
+
+BF2_WORDS = ["REBOOT", "CRC", "SELECT", "CHECK_FWVER", "Firmware", "Creator", "Bf3Update", "SELECT_IF", "Customer", "Date"]
+BF2_KEYS = ["", "FILTER", "VALUE", "VER", "PROTOCOL", "X"]
+BF2_VALUES = ["", "abc", "0", "-1", "-123 1 0 0", "0x1FFFFFFFF", "0xFFFFFFFF", "0x", "zz", "1100 2 05 abc", "1100 BRD 1.02.03 01/02/03",
+              "99999 BRD 300.400.500 x", "010100B6", "01", "0101", "FF" * 40, "1.2", "é", "a=b", "a:b", " ", "brp", "x" * 300]
+
+
+def fam_bf2words(seed, tier):
+    for w in BF2_WORDS:
+        for form in ("hdr", "instr"):
+            for pos in ("before", "inside", "after"):
+                yield dict(word=w, form=form, pos=pos)
+
+
+@proof("C14/bf2_import.instruction-parameters", functions=[(BF3, "Bf3File.bf2_import"), (BF3, "Bf3File.exec_bf2instrs"),
+                                                           (BF3, "Bf3File.parse_bf2_file")],
+       family=fam_bf2words, bounded_only=True)
+def bf2_words(vc):
+    import io
+    vc.module("bec2format")
+    import bec2format as B
+    from bec2format import error as E
+    word, form, pos = vc._get("word"), vc._get("form"), vc._get("pos")
+    bad = []
+    for key in BF2_KEYS:
+        for val in BF2_VALUES:
+            vc.tick()
+            if form == "hdr":
+                line = "##%s: %s" % (word, val)
+            else:
+                line = "#> %s %s" % (word, ("%s=%s" % (key, val)) if key else val)
+            sect = [":0000FE00", ":00008404AABBCCDD", ":0000FF00"]
+            lines = ["##Bf3Update: yes"]
+            if pos == "before":
+                lines += [line] + sect
+            elif pos == "inside":
+                lines += sect[:2] + [line] + sect[2:]
+            else:
+                lines += sect + [line]
+            text = "\n".join(lines) + "\n"
+            try:
+                B.Bf3File.bf2_import(io.StringIO(text))
+            except (E.FormatError, ValueError):
+                pass
+            except Exception as e:          # noqa: the property is exactly about this
+                bad.append((line[:40], type(e).__name__, str(e)[:50]))
+    vc.prove("only-format-errors", not bad, repr(bad[:4]))
